@@ -13,10 +13,12 @@ func init() {
 	register(&Property{
 		ID:    "C16",
 		Level: "proof",
-		Explanation: "Non-interference by dataflow on the SSA of RedactUserinfo / RedactUserinfoInURLError: every use of the input URL is classified " +
-			"(nil-test of User, whole-struct copy into a fresh allocation, reads of other fields, guarded identity return); the copy's User field is " +
-			"overwritten, on every path to the return, by a value that derives only from constants; no store goes through the input. Hence the result is a " +
-			"function of (input without User, constants). Decides the structural non-interference argument for all URLs x credentials; trusts url.URL.String to read only the struct's fields.",
+		Explanation: "Non-interference by an object-state dataflow on the SSA of RedactUserinfo / RedactUserinfoInURLError: every use of the input URL (and of the phis it flows into) is classified " +
+			"(u.User only in nil tests, other fields read, *u only assigned as a whole to a local URL, no store through it, no call receives it); every local url.URL carries an abstract state " +
+			"{zero, holds *u, fields copied one by one} x {User overwritten by the mask since} propagated over the CFG; every value that may be returned (per phi edge, with the branch facts of that " +
+			"edge) is the input under u.User == nil or a local copy in the state 'whole input, User = mask'; the mask is a package variable written only by its initialiser from constants. Hence the " +
+			"result is a function of (input without User, constants). The error function's only store outside local copies is errURL.URL of err asserted to *url.Error under ok and u.User != nil, " +
+			"with the String() of RedactUserinfo(u) or of a local masked copy. Decides the structural non-interference argument for all URLs x credentials; trusts url.URL.String to read only the struct's fields.",
 		Technique: "SSA dataflow / non-interference (use classification of the input pointer, dominance of the mask store)",
 		Note:      "Trusted: go/types, go/ssa, net/url (*URL).String reading only the struct fields. Assumes u != nil as documented.",
 		DesignRef: "DESIGN.md section 4, C16",
